@@ -545,3 +545,49 @@ Proof.
   repeat (first [ discriminate | dmatch ]); intros H; inversion H; subst; try reflexivity;
     match goal with E : continue_until_wait _ _ _ _ = ROk _ |- _ => rewrite E; reflexivity end.
 Qed.
+
+(* ================================================================================================== *)
+(* Part E — truncation, exactly                                                                        *)
+(* ================================================================================================== *)
+
+(* a text longer than the limit is cut to exactly max(limit,0) characters: its first characters, and, when the
+   limit leaves room for it, "..." in place of the last three of them (so truncation is not more destructive
+   than it has to be) *)
+Lemma trunc_exact : forall s limit, (Z.max limit 0 < Z.of_nat (length s))%Z ->
+  trunc s limit = Some (firstn (Z.to_nat (Z.max limit 0)) s).
+Proof.
+  intros s limit H. unfold trunc, truncate.
+  destruct (Z.of_nat (length s) <=? Z.max limit 0)%Z eqn:E; [lia|]. simpl.
+  destruct (Z.max limit 0 - 0 <? 0)%Z eqn:E2; [lia|]. rewrite Z.sub_0_r, app_nil_r. reflexivity.
+Qed.
+
+Lemma trunc_ellipsis_exact : forall s limit, (3 <= limit)%Z -> (limit < Z.of_nat (length s))%Z ->
+  trunc_ellipsis s limit = Some (firstn (Z.to_nat (limit - 3)) s ++ ellipsis) /\
+  length (firstn (Z.to_nat (limit - 3)) s ++ ellipsis) = Z.to_nat limit.
+Proof.
+  intros s limit H3 H. unfold trunc_ellipsis, truncate.
+  destruct (limit <? 3)%Z eqn:E0; [lia|].
+  destruct (Z.of_nat (length s) <=? limit)%Z eqn:E; [lia|]. simpl.
+  destruct (limit - 3 <? 0)%Z eqn:E2; [lia|]. split; [reflexivity|].
+  rewrite app_length, firstn_length. simpl. lia.
+Qed.
+
+(* ================================================================================================== *)
+(* Part F — what a rejected Resume may have touched                                                    *)
+(* ================================================================================================== *)
+
+(* with the transient parentRun flag threaded through: on an engine error the session and the sprint are as
+   they were; the only thing that may differ is the transient flag, it depends on the (unchanged) trigger only,
+   and running prepareForSprint again - as every later call does - gives the same flag *)
+Lemma resume_mp_rejected : forall a s loaded r tmo x' loaded' code,
+  resume_mp a s loaded r tmo = (x', loaded', OErr code) ->
+  x' = {| session_ := s; sprint_ := empty_sprint |} /\
+  loaded' = (loaded || trigger_has_run (s_trigger s))%bool /\
+  prepare_for_sprint (session_ x') loaded' = loaded' /\
+  prepare_for_sprint (session_ x') loaded = loaded'.
+Proof.
+  intros a s loaded r tmo x' loaded' code. unfold resume_mp.
+  destruct (resume_m a s r tmo) as [x o] eqn:E. intros H; inversion H; subst.
+  pose proof (resume_m_rejected_unchanged _ _ _ _ _ _ E) as ->. unfold prepare_for_sprint; simpl.
+  repeat split. destruct loaded, (trigger_has_run (s_trigger s)); reflexivity.
+Qed.
